@@ -284,7 +284,13 @@ class Net:
     def mangle(self, pay):
         """one of the malformed classes (the upper-case and trailing-blank variants are valid requests)."""
         r = self.r
-        k = r.randrange(11)
+        k = r.randrange(13)
+        if k == 11:                         # all hex digits present, blanks / tabs BETWEEN byte pairs
+            sep = r.choice([" ", "\t", "  "])
+            return sep.join(pay[i:i + 4] for i in range(0, len(pay), 4))
+        if k == 12:                         # ... or one separator somewhere between two bytes
+            i = 2 * r.randrange(1, max(2, len(pay) // 2))
+            return pay[:i] + r.choice([" ", "\t", "\x0b"]) + pay[i:]
         if k == 0:
             return pay[:-1]                 # odd length
         if k == 1:
